@@ -45,6 +45,7 @@ std::string script_body(const std::string &script,uint64_t salt){
 class TestApp : public cppcms::application {
 public:
 	TestApp(cppcms::service &s) : cppcms::application(s) {}
+	virtual const char *banner(){ return ""; }
 	void echo(){
 		cppcms::http::request &rq = request();
 		Pairs g,p,c; for(auto &kv:rq.get()) g.push_back(kv); for(auto &kv:rq.post()) p.push_back(kv);
@@ -55,7 +56,7 @@ public:
 		for(auto &f:rq.files()){ std::ostringstream ss; ss << f->data().rdbuf(); std::string d = ss.str(); files.push_back(esc(f->name()) + "|" + (f->has_mime() ? esc(f->mime()) : std::string("-")) + "|" + esc(f->filename()) + "|" + blob(d)); }
 		std::string t = echo_text(rq.getenv(),g,p,c,body,files);
 		response().set_plain_text_header();
-		response().out() << t;
+		response().out() << banner() << t;
 	}
 	void writer(){
 		std::string script = request().get("s"); uint64_t salt = strtoull(request().get("salt").c_str(),nullptr,10); std::string key = request().get("cache");
@@ -93,6 +94,9 @@ public:
 	}
 };
 
+
+// mounted for one host name only, in front of the synchronous echo application
+class HostApp : public TestApp { public: HostApp(cppcms::service &s) : TestApp(s) {} const char *banner() override { return "H internal\n"; } };
 
 // per-context data of the content-filter application
 struct FilterData {
@@ -281,7 +285,7 @@ struct E1 : Engine {
 		if(mode == 3){ int n = 1 + r.below(12); for(int i=0;i<n;i++) a.push((int)(1 + r.below(200))); return a; }
 		int n = 1 + r.below(3); for(int i=0;i<n;i++) a.push((int)(1 + r.below(len + 1))); return a; }
 	static std::string rnd_token(simk::Rng &r,int minl,int maxl){ static const char al[] = "abcdefghijklmnopqrstuvwxyzABCDEFGHIJKLMNOPQRSTUVWXYZ0123456789-_.~"; int n = minl + r.below(maxl-minl+1); std::string s; for(int i=0;i<n;i++) s += al[r.below(sizeof(al)-1)]; return s; }
-	static std::string rnd_urlenc(simk::Rng &r,int maxl){ std::string s; int n = r.below(maxl+1); for(int i=0;i<n;i++){ unsigned x = r.below(10); if(x < 6) s += "abcXYZ019-_.~"[r.below(13)]; else if(x < 8){ char b[8]; snprintf(b,sizeof(b),"%%%02X",(unsigned)(1 + r.below(254))); s += b; } else if(x == 8) s += '+'; else s += "%2F"; } return s; }
+	static std::string rnd_urlenc(simk::Rng &r,int maxl){ std::string s; int n = r.below(maxl+1); for(int i=0;i<n;i++){ unsigned x = r.below(10); if(x < 6) s += "abcXYZ019-_.~"[r.below(13)]; else if(x < 8){ char b[8]; snprintf(b,sizeof(b),"%%%02X",(unsigned)(1 + r.below(254))); for(int j=1;j<3;j++) if(r.below(2)) b[j] = (char)tolower((unsigned char)b[j]);   /* hex digits in either case, independently */ s += b; } else if(x == 8) s += '+'; else s += r.below(2) ? "%2F" : "%2f"; } return s; }
 	static size_t &gen_limit(){ static size_t v = 0; return v; }
 	static size_t &gen_budget(){ static size_t v = 1u<<30; return v; }   // largest request body affordable with this run's buffer / channel sizes   // content limit (bytes) of the run being generated, 0 = default
 	static J gen_req(simk::Rng &r,const std::string &prop,bool thorough,bool async_mount,int idx){
@@ -289,8 +293,10 @@ struct E1 : Engine {
 		static const char *methods[] = {"GET","GET","POST","POST","PUT","DELETE","OPTIONS","X-Custom.Method"};
 		std::string m = methods[r.below(8)]; q["method"] = m; q["script"] = async_mount ? "/a" : "/s";
 		bool filt = async_mount && (m == "POST" || m == "PUT") && (prop == "C12" || prop == "C02") && r.below(3) == 0; if(filt) q["script"] = "/f";
-		std::string path = filt && r.below(2) ? "/echomp" : "/echo"; if(path == "/echomp" && r.below(2)) path += (char)('1' + r.below(3));   // the digit selects what the multipart filter does with the parts (reads them / sniffs them) int ns = r.below(4); for(int i=0;i<ns;i++){ path += "/"; unsigned x = r.below(8); if(x == 0) path += ""; else if(x == 1) path += "%41b%2Fc"; else if(x == 2) path += "a%20b"; else if(x == 3) path += "."; else path += rnd_token(r,1,8); }
+		std::string path = filt && r.below(2) ? "/echomp" : "/echo"; if(path == "/echomp" && r.below(2)) path += (char)('1' + r.below(3));   // the digit selects what the multipart filter does with the parts (reads them / sniffs them) int ns = r.below(4); for(int i=0;i<ns;i++){ path += "/"; unsigned x = r.below(8); if(x == 0) path += ""; else if(x == 1) path += r.below(2) ? "%41b%2Fc" : "%4ab%2fc%e2%82%Ac"; else if(x == 2) path += "a%20b"; else if(x == 3) path += "."; else path += rnd_token(r,1,8); }
 		q["path"] = path;
+		if(r.below(3) == 0){ static const char *hosts[] = {"internal.example","internal.example","internal.example:8080","xinternal.example","internal.example.evil","internal.example:80x","other.example:8080"}; q["host"] = hosts[r.below(7)]; }   // an application is mounted for the host internal.example(:port) only: every request of a kept-alive connection is dispatched by its own Host
+		if(r.below(4) == 0) q["host_last"] = 1;
 		if(r.below(3)){ std::string qs; int n = r.below(5); for(int i=0;i<n;i++){ if(i) qs += "&"; qs += rnd_token(r,1,5) + (r.below(8) ? "=" : "") ; qs += rnd_urlenc(r,10); if(r.below(12)==0) qs += "&" ; } q["query"] = qs; q["has_query"] = true; }
 		J hs = J::arr(); int nh = r.below(7); if(r.below(6) == 0) nh = 20 + r.below(120);   // many headers: the environment table grows through several sizes
 		for(int i=0;i<nh;i++){ J h = J::arr(); static const char *names[] = {"X-Custom","Accept","User-Agent","x-lower-case","X-Mixed-Case-Header","Accept-Language","Referer","X-A"}; std::string nm = names[r.below(8)]; nm += std::to_string(i); h.push(nm);
@@ -325,6 +331,7 @@ struct E1 : Engine {
 	}
 	static Req req_from(const J &q){
 		Req r; r.method = q.gets("method","GET"); if(r.method.empty()) r.method = "GET"; r.script = q.gets("script","/s"); if(r.script != "/a" && r.script != "/f") r.script = "/s"; r.path = q.gets("path","/echo"); if(r.path.empty() || r.path[0] != '/') r.path = "/" + r.path;
+		{ std::string h = q.gets("host"); static const char *known[] = {"sim.example","internal.example","internal.example:8080","xinternal.example","internal.example.evil","internal.example:80x","other.example:8080"}; r.host = "sim.example"; for(auto k:known) if(h == k) r.host = h; r.host_last = q.geti("host_last") != 0; }
 		r.has_query = q.geti("has_query"); r.query = q.gets("query");
 		const J &hs = q.get("headers"); for(size_t i=0;i<hs.size();i++) if(hs.a[i].size() >= 2){ r.headers.push_back({hs.a[i].a[0].s,hs.a[i].a[1].s}); r.fold.push_back(hs.a[i].size() > 2 ? (int)hs.a[i].a[2].as_int() : 0); }
 		const J &cs = q.get("cookies"); for(size_t i=0;i<cs.size();i++) if(cs.a[i].size() >= 2){ r.cookies.push_back({cs.a[i].a[0].s,cs.a[i].a[1].s}); r.cookie_quoted.push_back(cs.a[i].size() > 2 ? (int)cs.a[i].a[2].as_int() : 0); }
@@ -411,12 +418,12 @@ struct E1 : Engine {
 	static J gen_mutation(simk::Rng &r,int proto){
 		J m = J::obj(); unsigned x = r.below(100);
 		static const char *generic[] = {"truncate","truncate","flip","insert","delete","garbage","dup_tail","mp_no_final_boundary","mp_bad_part_header","mp_no_name","mp_cut","fold_insert","fold_insert"};
-		static const char *http_m[] = {"cl_negative","cl_huge","cl_nonnumeric","cl_duplicate","cl_bigger","cl_smaller","header_16k","bare_lf","nul_in_header","no_version","bad_uri","no_colon","header_spaces","cl_over_limit"};
+		static const char *http_m[] = {"cl_negative","cl_huge","cl_nonnumeric","cl_duplicate","cl_bigger","cl_smaller","header_16k","bare_lf","nul_in_header","no_version","bad_uri","no_colon","header_spaces","cl_over_limit","odd_target","odd_target"};
 		static const char *scgi_m[] = {"len_bigger","len_smaller","no_comma","no_final_nul","len_nondigit","len_huge","len_negative","cl_negative","cl_bigger","cl_smaller","odd_fields","cl_over_limit"};
 		static const char *fcgi_m[] = {"bad_version","unknown_type","bad_role","params_wrong_id","record_len_lie","pair_len_overflow","stdin_longer","stdin_shorter","get_values","get_values_then_request","abort_request","params_never_closed","stray_record_in_params","cl_negative","begin_short","stdin_before_params","cl_over_limit"};
 		std::string op;
 		if(x < 45) op = generic[r.below(13)];
-		else if(proto == 0) op = http_m[r.below(14)]; else if(proto == 1) op = scgi_m[r.below(12)]; else op = fcgi_m[r.below(17)];
+		else if(proto == 0) op = http_m[r.below(16)]; else if(proto == 1) op = scgi_m[r.below(12)]; else op = fcgi_m[r.below(17)];
 		m["op"] = op; m["pos"] = (long long)r.below(1000000); m["n"] = (int)(1 + r.below(8)); m["byte"] = (int)r.below(256); m["len"] = (int)r.below(3000);
 		static const char *afters[] = {"close","halfclose","halfclose","wait","reset"}; m["after"] = afters[r.below(5)];
 		if(r.below(12) == 0){ m["op"] = "complete_then_reset"; m["after"] = "reset"; }   // a complete, valid request whose peer resets the connection right behind its last byte
@@ -472,6 +479,9 @@ struct E1 : Engine {
 		else if(op == "bare_lf"){ for(size_t i=0;i+1<w.size() && (hdr_end == std::string::npos || i < hdr_end + 4);i++) if(w[i] == '\r' && w[i+1] == '\n'){ w.erase(i,1); if(hdr_end != std::string::npos) hdr_end--; } }
 		else if(op == "nul_in_header"){ size_t h = w.find("\r\n"); if(h != std::string::npos) w.insert(h+2,std::string("X-Nul: a\0b\r\n",12)); }
 		else if(op == "no_version"){ size_t h = w.find(" HTTP/1."); size_t eol = w.find("\r\n"); if(h != std::string::npos && eol != std::string::npos) w.erase(h,eol-h); }
+		else if(op == "odd_target"){   // request targets other than the origin form (RFC 7230 5.3): absolute form with and without a path, authority form, asterisk form, empty, no leading slash, blanks
+			static const char *targets[] = {"http://example.com","http://example.com/","http://example.com?x=1","http://","http:","http://example.com/s/echo?a=b","https://h:443","example.com:80","*","","s/echo","//","/s/echo /x","?","#","http://[::1","\t/s/echo"};
+			size_t sp = w.find(' '); size_t sp2 = sp == std::string::npos ? sp : w.find(' ',sp+1); size_t eol = w.find("\r\n"); if(sp != std::string::npos && sp2 != std::string::npos && eol != std::string::npos && sp2 < eol) w.replace(sp+1,sp2-sp-1,targets[(size_t)(m.geti("pos") % 17)]); }
 		else if(op == "bad_uri"){ size_t sp = w.find(' '); if(sp != std::string::npos && sp+1 < w.size()) w[sp+1] = '*'; }
 		else if(op == "no_colon"){ size_t h = w.find("\r\n"); if(h != std::string::npos) w.insert(h+2,"this header has no colon\r\n"); }
 		else if(op == "header_spaces"){ size_t h = w.find("\r\n"); if(h != std::string::npos) w.insert(h+2," \t leading-space-first-header: x\r\n"); }
@@ -568,6 +578,7 @@ struct E1 : Engine {
 			std::unique_ptr<cppcms::service> srv;
 			try {
 				srv.reset(new cppcms::service(v));
+				srv->applications_pool().mount(cppcms::create_pool<HostApp>(),cppcms::mount_point(cppcms::mount_point::match_path_info,booster::regex("internal\\.example(:\\d+)?"),booster::regex("/s"),booster::regex(),0),cppcms::app::synchronous);
 				srv->applications_pool().mount(cppcms::create_pool<TestApp>(),cppcms::mount_point("/s"),cppcms::app::synchronous);
 				srv->applications_pool().mount(cppcms::create_pool<TestApp>(),cppcms::mount_point("/a"),cppcms::app::asynchronous);
 				srv->applications_pool().mount(cppcms::create_pool<FilterApp>(),cppcms::mount_point("/f"),cppcms::app::asynchronous | cppcms::app::content_filter);
@@ -610,7 +621,7 @@ struct E1 : Engine {
 		AW = nullptr;
 		// ------------------------------------------------------------ oracles
 		std::map<std::string,std::string> cache_pages;
-		int n_raw = 0, n_aborted = 0; int n_disk_refused = 0; int n_on_error = 0; int n_filtered = 0, n_filter_reads = 0; int n_over_limit = 0; int n_gzip_empty = 0; int n_bad = 0, n_bad_refused = 0; int n_cache_hits = 0; int n_ex = 0, n_multi_seg = 0, n_body = 0, n_keepalive_followups = 0, n_writer = 0, n_gzip = 0, n_chunked = 0;
+		int n_raw = 0, n_aborted = 0; int n_disk_refused = 0; int n_on_error = 0; int n_filtered = 0, n_filter_reads = 0, n_host_app = 0; int n_over_limit = 0; int n_gzip_empty = 0; int n_bad = 0, n_bad_refused = 0; int n_cache_hits = 0; int n_ex = 0, n_multi_seg = 0, n_body = 0, n_keepalive_followups = 0, n_writer = 0, n_gzip = 0, n_chunked = 0;
 		for(auto &cl:clients){ int port = 8080; bool conn_had_error = false; bool aborted_conn = false;
 			for(size_t i=0;i<cl->ex.size() && res.ok;i++){ Exchange &e = cl->ex[i]; n_ex++; if(e.seg.size() > 1) n_multi_seg++; if(e.req.has_body && !e.req.body.empty()) n_body++; if(i > 0 && !e.conn_closed_early) n_keepalive_followups++;
 				std::string who = std::string(cl->proto == 0 ? "http" : cl->proto == 1 ? "scgi" : "fastcgi") + " " + e.req.script + " request " + e.tag;
@@ -666,6 +677,7 @@ struct E1 : Engine {
 							if(behav){ std::string seen; for(auto &pt:e.req.parts) seen += behav == 3 ? pt.name + ":" + pt.content.substr(0,4) + ";" : pt.name + ":" + std::to_string(pt.content.size()) + ":" + std::to_string((unsigned long long)wire::fnv(pt.content)) + ";"; want += " behav=" + std::to_string(behav) + " seen=" + std::to_string((unsigned long long)wire::fnv(seen)) + " badprog=0"; n_filter_reads++; }
 							want += "\n"; } }
 					else want = echo_text(x.env,x.get,x.post,x.cookies,x.body,x.files);
+					if(e.req.script == "/s" && wire::internal_host(e.req.host)){ want = "H internal\n" + want; n_host_app++; }
 					if(body != want && getenv("E1_DEBUG_ECHO")) fprintf(stderr,"---- got:\n%s\n---- want:\n%s\n",body.c_str(),want.c_str());
 					// the class names the kind of the first differing line (E env, G get, P post, C cookie, B body, F file, X filter): minimisation must not drift from one kind of difference into another
 					if(body != want){ std::string fd = first_diff(body,want); size_t g = fd.find("got line: "), x = fd.find("| expected line: "); std::string kind; if(g != std::string::npos && g + 10 < fd.size() && fd[g+10] != ' ') kind += fd[g+10]; else kind += '-'; if(x != std::string::npos && x + 17 < fd.size()) kind += fd[x+17]; else kind += '-';
@@ -696,7 +708,7 @@ struct E1 : Engine {
 		if(res.ok) for(auto &kv:aw.on_error){ if(kv.second > 1) res.fail("upload-error-notified-twice","request " + kv.first + ": content filter on_error() called " + std::to_string(kv.second) + " times"); else if(aw.completed.count(kv.first)) res.fail("error-and-completion","request " + kv.first + ": on_error() was called and the handler completed as well"); n_on_error += kv.second; }
 		if(res.ok && leaked) res.fail("descriptor-leak",std::to_string(leaked) + " simulated descriptors still open after the service was destroyed");
 		if(res.ok && !aw.exception.empty()) res.fail("exception-escaped",aw.exception);
-		res.counters["raw_mode_responses"] = n_raw; res.counters["client_aborts_mid_response"] = n_aborted; res.counters["filter_on_error_calls"] = n_on_error; res.counters["content_filter_requests"] = n_filtered; res.counters["filter_reads_parts"] = n_filter_reads; res.counters["filters_installed"] = aw.filters_installed; res.counters["over_limit_413"] = n_over_limit; res.counters["gzip_announced_empty_body"] = n_gzip_empty; res.counters["malformed_exchanges"] = n_bad; res.counters["malformed_refused_as_required"] = n_bad_refused; res.counters["page_cache_hits"] = n_cache_hits; res.counters["exchanges"] = n_ex; res.counters["multi_segment_requests"] = n_multi_seg; res.counters["requests_with_body"] = n_body; res.counters["keepalive_followups"] = n_keepalive_followups; res.counters["writer_responses"] = n_writer; res.counters["gzip_responses"] = n_gzip; res.counters["chunked_responses"] = n_chunked;
+		res.counters["raw_mode_responses"] = n_raw; res.counters["client_aborts_mid_response"] = n_aborted; res.counters["filter_on_error_calls"] = n_on_error; res.counters["content_filter_requests"] = n_filtered; res.counters["filter_reads_parts"] = n_filter_reads; res.counters["host_mounted_app_requests"] = n_host_app; res.counters["filters_installed"] = aw.filters_installed; res.counters["over_limit_413"] = n_over_limit; res.counters["gzip_announced_empty_body"] = n_gzip_empty; res.counters["malformed_exchanges"] = n_bad; res.counters["malformed_refused_as_required"] = n_bad_refused; res.counters["page_cache_hits"] = n_cache_hits; res.counters["exchanges"] = n_ex; res.counters["multi_segment_requests"] = n_multi_seg; res.counters["requests_with_body"] = n_body; res.counters["keepalive_followups"] = n_keepalive_followups; res.counters["writer_responses"] = n_writer; res.counters["gzip_responses"] = n_gzip; res.counters["chunked_responses"] = n_chunked;
 		{ long long np = 0, nr = 0; for(auto &cl:clients){ np += cl->n_pauses; nr += cl->n_read_pauses; } res.counters["slow_peer_pauses"] = np; res.counters["slow_reader_pauses"] = nr; }
 		res.counters["pipelined_requests"] = n_pipelined;
 		res.counters["disk_faults_injected"] = (long long)st.stdio_fail; res.counters["upload_spill_stdio_calls"] = (long long)st.stdio_ops; res.counters["uploads_refused_after_disk_fault"] = n_disk_refused;
